@@ -154,6 +154,9 @@ func projectTrace(lines []straceLine, target, tmpdir string, partial bool) (even
 			}
 			return
 		}
+		if r == "kill" && len(events) > 0 && events[len(events)-1].Step == step && events[len(events)-1].Res == "kill" {
+			return // strace can print the call the kill struck twice (unfinished / resumed by another thread): one protocol step
+		}
 		seen[step] = true
 		events = append(events, ipEvent{step, r})
 	}
